@@ -885,6 +885,32 @@ def plan_C09(tier):
             q.name += ".rej%d" % rej
             q.array_fs = True
             qs.append(q)
+    # API-only form: documents with one mutated structure byte / unconstrained payload, the script keeps calling after the error
+    from . import shapes
+    from .shapes import Node
+    api = []
+    for root, node in ([(2, Node("A", [Node("T"), Node("T")], [])), (1, Node("O", [Node("T")], [1])), (2, Node("A", [Node("A", [Node("T")], []), Node("T")], [])),
+                        (1, Node("O", [Node("O", [Node("T")], [0]), Node("T")], [0, 1]))] +
+                       ([] if tier == "quick" else [(2, n) for n in shapes.gen_shapes(2, 5, ("T", "S1"), 3)] + [(1, n) for n in shapes.gen_shapes(1, 6, ("T", "S1"), 3)])):
+        b, m = shapes.skeleton(node)
+        full = shapes.full_script(node)
+        s = full + ["N", "GA" if root == 2 else "GO"]
+        for i in range(1, len(b) - 1):
+            if not m[i]:
+                continue
+            mm = list(m); mm[i] = 0
+            n = len(b)
+            D = max(2, node.depth_obj() + (1 if root == 2 else 0))
+            q = script_query(9, s, n, D, root, mode=3, J=None, timeout=1200,
+                             extra={"SK_LEN": n, "SK_BYTES": ",".join(str(x) for x in b), "SK_MASK": ",".join(str(x) for x in mm)})
+            q.name = "latch.p9.%s.byte%d" % (node.label(), i)
+            q.array_fs = True
+            q.mem_gb = 5
+            q.tags.update({"shape": node.label(), "family": "H-MUT (latch)", "mutated_byte": i,
+                           "what": "every op executed unconditionally; after the first error all later calls must fail and change nothing"})
+            q.group = "h_script.latch"
+            api.append(q)
+    qs += api[:8] if tier == "quick" else api
     # writer
     for c in ((0, 5, 12) if tier == "quick" else (0, 1, 2, 5, 9, 12, 20)):
         for fn in range(1, 12):
@@ -892,7 +918,9 @@ def plan_C09(tier):
     for c in ((3, 6) if tier == "quick" else range(0, 13)):
         qs.append(writer_query(9, 2, c, k=2 if tier == "quick" else 3, srcmax=4, timeout=2400))
     info = {
-        "rule": "parser: H-STEP from an ARBITRARY state with error_flags != NONE (only the structural part of Inv assumed), one call "
+        "rule": "parser API-only: shapes with one structure byte made symbolic, the full traversal plus further calls executed "
+                "unconditionally: after the first error every call returns false, nothing moves, getters neutral, error stays. "
+                "parser induction: H-STEP from an ARBITRARY state with error_flags != NONE (only the structural part of Inv assumed), one call "
                 "per query: returns false / neutral, error stays set, cursor and depth unchanged; plus from an error-free state: a call "
                 "that raises an error returns false. Writer: H-WSTEP from an arbitrary state with an error set, and H-WSEQ sequences: "
                 "returns false, destination unchanged, counter keeps counting, error stays.",
